@@ -156,3 +156,77 @@ Example C01_record_example :
        (Lib.Bytes.s2l "200 Accepted password for bob from 10.0.0.7 port 6000 ssh2"%string ++ [Model.Syslog.nl]) true true)
   = Some [200%Z].
 Proof. vm_compute. split; reflexivity. Qed.
+
+
+(* ====================================================================================================
+   What arrives on the pipes is what the processors are handed (round 7).
+   C01 is a statement about what the DAEMON emits for the records written to its pipes; the theorems above
+   start at the record the processor is handed.  The reader between the two - NamedPipeIngester.Ingest, the
+   wrappers of the two ingesters and their Process callbacks - is regenerated into Gen/IngestProg.v on every
+   run; the statements below (proved in Proofs/IngestIRTie.v, restated here so that they are obligations of
+   C01) say that for every chunking of the pipe's byte stream each newline-terminated record is handed to
+   the callback exactly once, in order, with exactly its bytes (Model/Framing.v [ingest], about which C12's
+   theorems are proved), that the pipe is opened read-only (so the last writer's close is end-of-stream and an
+   unterminated tail is never joined to a later writer's bytes), and what the callback does with the
+   record.  Any edit of the reader changes the generated program and these stop checking.
+   ==================================================================================================== *)
+From Coq Require Import Ascii String List.
+From AM Require Import Model.Framing Model.IngestIR Gen.IngestProg Proofs.IngestIRTie.
+Import ListNotations.
+Open Scope string_scope.
+Open Scope list_scope.
+Open Scope nat_scope.
+
+Theorem C01_records_reach_processor_unchanged : forall cs cb,
+  run_ingest gen_Ingest cs (ascii_of_nat (wr_delim gen_auditlog_Ingest)) cb = Some (ingest cs newline cb) /\
+  run_ingest gen_Ingest cs (ascii_of_nat (wr_delim gen_syslog_Ingest)) cb = Some (ingest cs newline cb).
+Proof. exact wrapped_ingest_from_source. Qed.
+Print Assumptions C01_records_reach_processor_unchanged.
+
+(* the reader's statements: ReadString with the caller's delimiter, the line handed on as it was read *)
+Theorem C01_pipe_reader_loop_from_source :
+  ip_loop gen_Ingest = [
+    IReadString "line" "err" DParam;
+    IIf (CErrNotNil "err") [ILog "Errorf"; IReturn (EVar "err")] [];
+    ICallback (TAssign "err") (SVar "line");
+    IIf (CErrNotNil "err") [IReturn (EVar "err")] []].
+Proof. exact loop_shape_from_source. Qed.
+Print Assumptions C01_pipe_reader_loop_from_source.
+
+(* the set-up: read-only open in a goroutine with a cancellable wait, errors returned unchanged, the file closed
+   on cancellation and on return, the reader reads that file *)
+Theorem C01_pipe_open_from_source :
+  (exists i j, index_of is_onready (ip_setup gen_Ingest) = Some i /\
+               index_of is_open (ip_setup gen_Ingest) = Some j /\ i < j) /\
+  In (SOnReady "named-pipe-processor") (ip_setup gen_Ingest) /\
+  In (SGoOpen "file" "err" ["O_RDONLY"] "ModeNamedPipe" "ready") (ip_setup gen_Ingest) /\
+  In (SSelect [SArmDone ECtxErr; SArmRecv "ready"]) (ip_setup gen_Ingest) /\
+  open_is_cancellable (ip_setup gen_Ingest) = true /\
+  In (SIfErrReturn "err" (EVar "err")) (ip_setup gen_Ingest) /\
+  In (SGoCloseOnCancel "file") (ip_setup gen_Ingest) /\
+  read_is_cancellable (ip_setup gen_Ingest) = true /\
+  In (SDeferClose "file") (ip_setup gen_Ingest) /\
+  In (SNewReader "r" "file") (ip_setup gen_Ingest).
+Proof. exact setup_from_source. Qed.
+Print Assumptions C01_pipe_open_from_source.
+
+(* sshd pipe: the callback removes exactly one trailing newline, the rest goes to ParseSyslogMessage and on to
+   SshdProcessor.ProcessSshdLogEntry, whose error is returned unchanged; for a record as Ingest delivers it
+   that is the record's body *)
+Theorem C01_sshd_record_reaches_processor :
+  gen_syslog_Process =
+  {| pr_line := "line";
+     pr_body := PParseAndProcess "ParseSyslogMessage" (STrimLit [10] (SVar "line"))
+                                 "SshdProcessor" "ProcessSshdLogEntry" |} /\
+  forall b, trim_suffix (map ascii_of_nat [10]) (b ++ [newline]) = b.
+Proof. exact (conj syslog_process_from_source syslog_process_gets_body). Qed.
+Print Assumptions C01_sshd_record_reaches_processor.
+
+(* audit pipe: the callback is one select with a ctx.Done arm (returns ctx.Err()) and the send of the line,
+   unchanged, on AuditLogChan (returns nil) *)
+Theorem C01_audit_record_reaches_processor :
+  gen_auditlog_Process =
+  {| pr_line := "line";
+     pr_body := PSelect [PArmDone ECtxErr; PArmSend "AuditLogChan" (SVar "line") ENil] |}.
+Proof. exact auditlog_process_from_source. Qed.
+Print Assumptions C01_audit_record_reaches_processor.
